@@ -178,6 +178,8 @@ def check_call(ev, contract, func, args, check_frame=True):
         result = None
     if exc is not None:
         name = type(exc).__name__
+        if name in getattr(contract, 'may_raise', ()):
+            return 'ok', 'raised (allowed on any input: partial-correctness contract)'
         if name in contract.raises:
             ok = bool(ev.eval(contract.raises[name], env0, env0))
             return ('ok', 'raised as specified') if ok else ('fail', 'raises.%s.only_when: raised %r' % (name, exc))
